@@ -39,6 +39,10 @@ CHECKS = {
    "self-checking generated programs under Node (plain and minified): rapid-generated (Go type, value) pairs over the documented conversion table pushed through argument, property, index, return-value and Interface() paths and described structurally on the JavaScript side; expectations are computed by the harness from the js package documentation; fixed scenario families with generated values cover tagged wrapper structs, typed accessors, exposed functions, MakeFunc, MakeWrapper, function identity and the blocking-callback guard",
    "expectations exist only for documented conversions (time.Time and DOM Node rows cannot be built here); Node's typeof/constructor/Object.is are trusted",
    "property-based testing with a documentation-derived oracle and round-trip relation (rapid)"),
+ "C07": ("exploration",
+   "rapid-generated struct/array type shapes x a catalogue of about 60 copy and alias contexts x a mutation of a rapid-chosen leaf on one side, followed by deep dumps of both sides, compared with the native run",
+   "trusts the native Go toolchain as reference; contexts are a fixed catalogue instantiated over generated shapes, so a context outside the catalogue is not explored",
+   "property-based differential testing of generated probe programs (rapid) with native Go as oracle"),
 }
 PENDING_REASON = "check not built yet in this session (work in progress; see DESIGN.md §8 for the order)"
 props=[json.loads(l)['id'] for l in open('/verif/properties.jsonl')]
